@@ -39,7 +39,7 @@ def sample_symbols():
         sympy.Symbol("y"), sympy.Symbol("z", positive=True), Symbol("n", integer=True),
         Symbol("eps", display_latex="\\varepsilon", positive=True), Symbol("t'", display_latex="t'", real=True),
         Symbol("EMF", display_latex="\\mathcal{E}"),
-    ]
+    ] + cloned_symbols()
 
 
 def name_mangled(raw: str, printed: str):
@@ -83,6 +83,47 @@ def name_mangled(raw: str, printed: str):
     return None
 
 
+def name_tex_scripts(printed: str):
+    """Read the printed name as TeX does: `_` and `^` bind exactly ONE token unless the argument is braced.  An unbraced
+    script followed directly by further letters/digits (`\\mathcal{E}_21`, `\\text{Re}_max`, `\\Sigma_text{f}`) is typeset
+    as a one-character script followed by a product -- the symbol does not appear under its display name."""
+    import re  # pylint: disable=import-outside-toplevel
+    m = re.search(r"([_^])([A-Za-z0-9])([A-Za-z0-9]+)", printed)
+    if m:
+        return (f"in TeX the unbraced {'subscript' if m.group(1) == '_' else 'superscript'} binds only {m.group(2)!r}; "
+            f"{m.group(3)!r} is typeset as a separate factor")
+    return None
+
+
+def braced_library_symbols():
+    """library symbols whose LaTeX name already contains braces (\\mathcal{E}, \\text{Re}, ...), sorted by code name"""
+    import importlib  # pylint: disable=import-outside-toplevel
+    import pkgutil  # pylint: disable=import-outside-toplevel
+    from symplyphysics import symbols as pkg  # pylint: disable=import-outside-toplevel
+    from symplyphysics.core.symbols.symbols import Symbol as SpSymbol  # pylint: disable=import-outside-toplevel
+    found = {}
+    for info in pkgutil.iter_modules(pkg.__path__):
+        try:
+            mod = importlib.import_module(f"{pkg.__name__}.{info.name}")
+        except Exception:  # pylint: disable=broad-except
+            continue
+        for name, obj in sorted(vars(mod).items()):
+            if isinstance(obj, SpSymbol) and "{" in obj.display_latex and "_" not in obj.display_latex:
+                found.setdefault(obj.display_name, obj)
+    return [found[k] for k in sorted(found)]
+
+
+def cloned_symbols():
+    """symbols made the way law modules make them: clone_as_symbol(library symbol with a braced LaTeX name,
+    subscript=<more than one character>)"""
+    from symplyphysics import clone_as_symbol  # pylint: disable=import-outside-toplevel
+    lib = braced_library_symbols()
+    out = []
+    for src, sub in zip(lib[:4], ["21", "max", "0", "in"]):
+        out.append(clone_as_symbol(src, subscript=sub))
+    return out
+
+
 class TexReader(rc.Reader):
     """reference reading for LaTeX: special constructs are outside the reader's grammar"""
 
@@ -121,7 +162,7 @@ def make_case(key, origin, expr, vkey, **extra):
         c["euler"] = "e"
         c["mangled"] = []
         for printed, raw in rd.raw_latex.items():
-            why = name_mangled(raw, printed)
+            why = name_tex_scripts(printed) or name_mangled(raw, printed)
             if why:
                 c["mangled"].append((raw, printed, why))
     except rc.StructureOnly as e:
